@@ -297,10 +297,12 @@ func (u *upstream) removeClientLocked(addr string) {
 }
 
 func (u *upstream) resetAllClients() {
-	old := u.loadClients()
-
 	// set clients to empty
+	// NOTE: the old clients must be loaded with the lock held, otherwise a
+	// client registered by a createClient in progress would be dropped from
+	// the table without ever being stopped.
 	u.clientsMu.Lock()
+	old := u.loadClients()
 	u.updateClients(make(map[string]*client))
 	u.clientsMu.Unlock()
 
